@@ -1,6 +1,7 @@
 ---------------------------- MODULE PoolLifeProps ----------------------------
 (* C09 as operators over an observable record r = [scn |-> ..., obs |-> ...].            *)
 (*   scn.force   "none" (pool default) | "false" (user disabled forced termination)       *)
+(*   scn.retry   "T" | "F": Pool(retry=...)                                                  *)
 (*   scn.ctimeout "small" | "none" (Pool(close_timeout=None): wait as long as it takes)      *)
 (*   obs.created "ok" | "raised": the Pool with this configuration could be constructed       *)
 (*   scn.ops     the history (add:<kind> addfail dup:<wid> attach:<kind> run runp         *)
@@ -20,6 +21,10 @@
 (*               were not in that condition before this operation (caused by it)          *)
 (*     extra     inputs handed to workers / results returned by this run that do not      *)
 (*               belong to this run's inputs                                              *)
+(*     missing   inputs of this run for which no result was returned                       *)
+(*     fresh_dead  registered workers that were dead (OS) at the start of this run without  *)
+(*               an earlier run having met their death (with retry off the input offered to  *)
+(*               such a worker is lost by design)                                            *)
 (*     spoiled   1 iff a plain run on an open pool raised although a registered worker    *)
 (*               that was alive before the run is still alive after it                    *)
 (*     dead_got_work  workers that were dead (OS) before this run and were handed inputs  *)
@@ -35,7 +40,9 @@ IsRun(op) == op \in {"run", "runp", "runl"}
 ClosingOver(s) == s.closing = "T" /\ (s.outcome = "ok" \/ (s.outcome = "raised" /\ s.op \notin {"closeint", "termint"}))
 
 AllDeadS(r, s)          == (ClosingOver(s) /\ r.scn.force # "false") => s.alive_owned = 0
-RunIsolatedS(r, s)      == IsRun(s.op) => (s.extra = 0 /\ s.spoiled = 0)
+RunIsolatedS(r, s)      == /\ IsRun(s.op) => (s.extra = 0 /\ s.spoiled = 0)
+                           \* a plain run that ends normally and met no death it had to discover returns an answer for every input
+                           /\ (s.op = "run" /\ s.outcome = "ok" /\ s.fresh_dead = 0) => s.missing = 0
 NoWorkToDeadS(r, s)     == IsRun(s.op) => s.dead_got_work = 0
 RestartedGetWorkS(r, s) == (IsRun(s.op) /\ s.outcome = "ok") => s.restarted_no_work = 0
 NoLeakS(r, s)           == (IsReg(s.op) /\ s.outcome = "raised") => s.live_unreg = 0
